@@ -193,3 +193,43 @@ package core
 //@       && args_unfold(codec.buffer.buf, reqargc(codec.buffer.buf), reqargs(codec.buffer.buf))
 //@   ensures[toolarge@C17] result1 == nil ==> (result0.Type == codec.ReqTooLarge) == (codec.buffer.r > rc.MsgMaxLength)
 //@   ensures[owner] result1 == nil ==> result0.Owner == c && result0.Body != nil
+
+// ---- backend side (codec_s.go) ----
+//@ use reply strs
+
+//@ define line0(buf) = buf.buf[buf.r : buf.r + codec.lf(buf) - 1]
+//@ define errprefix(t) = has_prefix(t, "-NOAUTH Authentication required") || has_prefix(t, "-ERR invalid password")
+//@     || has_prefix(t, "-ERR Client sent AUTH, but no password is set")
+//@     || has_prefix(t, "-ERR AUTH <password> called without any password configured for the default user.")
+//@     || has_prefix(t, "-MOVED") || has_prefix(t, "-ASK")
+
+//@ func SRespCodec.readReply
+//@   props C02 C07 C11 C13
+//@   modifies buf.r
+//@   requires buf != nil && codec.bwf(buf)
+//@   ensures[wf] codec.bwf(buf) && buf.buf == old(buf.buf) && buf.r >= old(buf.r)
+//@   ensures[extent] result1 == nil ==> value_unfold(buf.buf, old(buf.r)) && value_ok(buf.buf, old(buf.r)) && buf.r == value_end(buf.buf, old(buf.r))
+//@   ensures[type.line] (result1 == nil && old(buf.buf[buf.r]) == '+') ==> (result0 == codec.RspOk || result0 == codec.RspPong || result0 == codec.RspStatus)
+//@   ensures[type.int] (result1 == nil && old(buf.buf[buf.r]) == ':') ==> result0 == codec.RspInteger
+//@   ensures[type.bulk] (result1 == nil && old(buf.buf[buf.r]) == '$') ==> result0 == codec.RspBulk
+//@   ensures[type.array] (result1 == nil && old(buf.buf[buf.r]) == '*') ==> (result0 == codec.RspMultibulk || result0 == codec.UNKNOWN)
+//@   ensures[type.err@C11] (result1 == nil && old(buf.buf[buf.r]) == '-' && !old(errprefix(str(line0(buf))))) ==> result0 == codec.RspError
+//@   ensures[type.moved@C13] (result1 == nil && (result0 == codec.RspMoved || result0 == codec.RspAsk)) ==> old(buf.buf[buf.r]) == '-'
+//@   ensures[type.iserr@C11] (result1 == nil && (result0 == codec.RspError || result0 == codec.RspNeedAuth || result0 == codec.RspAuthFailed || result0 == codec.RspNeedNtAuth)) ==> old(buf.buf[buf.r]) == '-'
+//@   loop 0
+//@     modifies buf.r
+//@     invariant 0 <= i && i <= n && codec.bwf(buf) && buf.buf == old(buf.buf) && buf.r >= pre(buf.r)
+//@     invariant elems_ok(buf.buf, i, pre(buf.r)) && buf.r == elems_end(buf.buf, i, pre(buf.r))
+//@     invariant elems_snoc(buf.buf, i, pre(buf.r)) && elems_unfold(buf.buf, i, pre(buf.r))
+
+//@ define sc(s) = ref(conn, s)
+//@ define sepbody(f) = f.Peer.RspBody == nil || f.RspBody == nil || f.RspBody.base != f.Peer.RspBody.base
+
+//@ func SRespCodec.Default
+//@   props C02 C07 C11
+//@   modifies f.Done, f.Peer.Done, f.Peer.Error, f.Peer.RspBody, capmem(f.Peer.RspBody)
+//@   requires f != nil && f.Peer != nil && sepbody(f)
+//@   ensures[done] f.Done && f.Peer.Done
+//@   ensures[copy@C02,C11] len(f.RspBody) <= rc.MsgMaxLength ==> bytes_eq(f.Peer.RspBody, f.RspBody) && f.Peer.Error == old(f.Peer.Error)
+//@   ensures[toolarge@C17] len(f.RspBody) > rc.MsgMaxLength ==> str(f.Peer.RspBody) == "-ERR rsp msg length too large\r\n" && f.Peer.Error == codec.ErrMsgRspTooLarge
+//@   ensures[src] unchanged(f.RspBody) && result == nil
